@@ -286,7 +286,8 @@ class Scheduler:
             if timed:
                 t = min(timed, key=lambda t: (t.deadline, t.idx))
                 self._fire_if_timed(t)
-                cands = [t]
+                # every waiter whose time has come is runnable now: who goes first is a free choice (default: lowest index)
+                cands = sorted((x for x in self.threads if x.state == "runnable"), key=lambda x: x.idx)
             else:
                 unfinished = [t for t in self.threads if t.state != "finished"]
                 if unfinished:
